@@ -221,6 +221,7 @@ func main() {
 				}
 			}()
 			run(c)
+			c.MustPassAccount()
 			if *tier == "thorough" {
 				rules.Sweep(c)
 			}
